@@ -76,8 +76,8 @@ def scripts_for(order, rng, how):
 
 def gen_cases(tier, seed):
     rng = vplib.rng_for(seed, "C20")
-    pool = POOL_FIXED + cl.source_cases(rng, 300 if tier == "thorough" else 120, findings=0.02)
-    n_sets = 1500 if tier == "thorough" else 170
+    pool = POOL_FIXED + cl.source_cases(rng, 1500 if tier == "thorough" else 120, findings=0.02)
+    n_sets = 8000 if tier == "thorough" else 170
     cases = []
     # every ordered pair of the fixed pool (covers each known shape in both positions)
     for a, b in itertools.permutations(range(len(POOL_FIXED)), 2):
@@ -273,7 +273,7 @@ def evaluate(v, cases, impl, model, stats, samples, distinct, listed):
                     arun = alone.get(i, ("", "-"))[1]
                     if body == "NOTBUILT":
                         continue
-                    if not typable.get(i, False):
+                    if not typable.get(i, False) or not body.startswith("END."):
                         stats["runs_of_unbalanced_programs"] += 1
                         unbalanced_ran = True
                         # still a finding when it is the empty program / the program that emitted nothing
@@ -285,9 +285,12 @@ def evaluate(v, cases, impl, model, stats, samples, distinct, listed):
                         continue
                     if unbalanced_ran:
                         stats["runs_after_unbalanced_residue"] += 1
+                    if not body.startswith("END."):
+                        # a failed run leaves operands and frames behind: what runs afterwards sees that residue
+                        unbalanced_ran = True
                     if body != arun:
-                        if unbalanced_ran and body.split(".")[2:] == arun.split(".")[2:]:
-                            continue
+                        if unbalanced_ran:
+                            continue      # stale operands / frames of an earlier failed or unbalanced run are on the stacks
                         stats["property_failures"] += 1
                         if len(v.violations) < 40:
                             v.violation(component="execute", data=which, input=case, shown=progs, step="x%d" % i,
@@ -328,7 +331,8 @@ def run(tier, seed):
     v.assumptions = [
         "constants are compared as structural values read through the getters (interning may share equal constants between programs)",
         "runs are compared (end state, step count, result value, executed instructions relative to the program's first instruction) "
-        "for stack-balanced programs; an unbalanced program (C06 findings) may consume operands an earlier failed run left behind",
+        "for stack-balanced programs; an unbalanced program (C06 findings) may consume operands an earlier failed run left behind, and "
+        "after a run that stopped with a runtime error (which leaves its operands and call frames on the stacks) only result values are compared",
         "a host clears nothing between runs: the residue of earlier executions (values, leftover operands of failed runs) stays in the data object",
     ]
     sy = vplib.sync(["instr", "defs", "tokentypes", "execmap"])
